@@ -215,7 +215,7 @@ def check(pid, tier, replay=None):
     have = os.path.exists(os.path.join(COQ, PROPS[pid]))
     if have:
         extra = {'C09': ['Properties/Properties_C09b.v', 'Properties/Properties_C09c.v', 'Properties/Properties_C09d.v'], 'C03': ['Properties/Properties_C03b.v', 'Properties/Properties_C03c.v', 'Properties/Properties_C03d.v', 'Properties/Properties_C03e.v', 'Properties/Properties_C03f.v'],
-                 'C14': ['Properties/Properties_C14c.v', 'Properties/Properties_C14d.v']}
+                 'C14': ['Properties/Properties_C14c.v', 'Properties/Properties_C14d.v'], 'C04': ['Properties/Properties_C04b.v']}
         proof_stage(res, ['lock'], [PROPS[pid]] + extra.get(pid, []), pid)
     else:
         res.proof_ok, res.broken, res.proof_log = True, [], ''
